@@ -136,10 +136,19 @@ func child(d *document, path ...string) *document {
 
 // docOp performs one local call on replica p chosen from a menu that targets
 // the shared containers; returns false if the call was refused.
-func docOp(tag string, p *docPeer) bool {
+func docOp(tag string, p *docPeer) bool { return docOpFrom(tag, p, nil) }
+
+// docOpFrom restricts the menu to the listed operation numbers (nil = all).
+func docOpFrom(tag string, p *docPeer, menu []int) bool {
 	var err iface.Operation
 	_ = err
-	switch vf.Choice(tag+".op", 8) {
+	op := 0
+	if menu == nil {
+		op = vf.Choice(tag+".op", 8)
+	} else {
+		op = menu[vf.Choice(tag+".op", len(menu))]
+	}
+	switch op {
 	case 0: // put on root, same key for both replicas
 		_, e := p.doc.PutToObject("k", vfDocValue(tag+".v"))
 		return e == nil
@@ -260,4 +269,83 @@ func VF_Doc_Determinism() {
 	b.receive(a.flush())
 	vf.Reach("addressed")
 	vf.Assert(jsonDeepEq(a.doc.ToJSON(), b.doc.ToJSON()), "C01/C15 an operation addressed to a nested container reaches the same container on every replica")
+}
+
+// docStructDiff: structural comparison of two document states - every field
+// the operations read: node table (identifier -> node: kind, creation and
+// deletion time, parent, value / key map / array chain with order times and
+// sizes) and the cemetery key set.  Returns "" when equal, else what differs.
+func docStructDiff(x, y *document) string {
+	cx, cy := x.snapshot().getRoot().getCommon(), y.snapshot().getRoot().getCommon()
+	if len(cx.NodeMap) != len(cy.NodeMap) {
+		return "node table size"
+	}
+	// The cemetery (a garbage-collection index that no operation reads) is not
+	// part of the relation: an element that was deleted and then superseded by a
+	// newer put keeps a cemetery entry in the original but has left the node
+	// table, so a restored instance does not list it.
+	for _, n := range cx.NodeMap {
+		m, ok := cy.NodeMap[n.getCreateTime().Hash()]
+		if !ok {
+			return "node missing"
+		}
+		if n.getType() != m.getType() {
+			return "node kind"
+		}
+		if !tsEq(n.getDeleteTime(), m.getDeleteTime()) {
+			return "delete time"
+		}
+		if (n.getParent() == nil) != (m.getParent() == nil) {
+			return "parent presence"
+		}
+		if n.getParent() != nil && !tsEq(n.getParent().getCreateTime(), m.getParent().getCreateTime()) {
+			return "parent"
+		}
+		switch c := n.(type) {
+		case *jsonElement:
+			if c.V != m.(*jsonElement).V {
+				return "element value"
+			}
+		case *jsonObject:
+			d := m.(*jsonObject)
+			if c.Size != d.Size {
+				return "object size"
+			}
+			if len(c.Map) != len(d.Map) {
+				return "object key count"
+			}
+			for key, ch := range c.Map {
+				dh, ok := d.Map[key]
+				if !ok || !tsEq(ch.(jsonType).getCreateTime(), dh.(jsonType).getCreateTime()) {
+					return "object child"
+				}
+			}
+		case *jsonArray:
+			d := m.(*jsonArray)
+			ca, da := chainOf(c.listSnapshot), chainOf(d.listSnapshot)
+			if c.size != d.size {
+				return "array size"
+			}
+			if len(ca) != len(da) || len(c.Map) != len(d.Map) {
+				return "array chain length"
+			}
+			for i := range ca {
+				if !tsEq(ca[i].getOrderTime(), da[i].getOrderTime()) {
+					return "array order time"
+				}
+				if !tsEq(ca[i].getTimedType().(jsonType).getCreateTime(), da[i].getTimedType().(jsonType).getCreateTime()) {
+					return "array slot content"
+				}
+			}
+		}
+	}
+	return ""
+}
+
+func docStructEq(x, y *document) bool {
+	d := docStructDiff(x, y)
+	if d != "" {
+		vf.Tag("diff", d)
+	}
+	return d == ""
 }
